@@ -358,7 +358,9 @@ def gen_doc(rng, cover, hostile=False):
         doc['blueprint'] = {'default': {'global': {'resourceManager': {'config': {'walltime': 480.0}, 'lsf': {'statusRequestInterval': 60}}},
                                         'stages': {0: {'command': {'environment': 'envA'}}}}}
     if rng.random() < 0.7:
-        ws = {1: [1.0], 2: [0.25, 0.75], 3: [0.5, 0.25, 0.25]}[nstages]
+        # weights with up to four decimals (they are written with str() and read back with float())
+        ws = rng.choice({1: [[1.0]], 2: [[0.25, 0.75], [0.125, 0.875], [0.3333, 0.6667]],
+                         3: [[0.5, 0.25, 0.25], [0.125, 0.375, 0.5], [0.005, 0.045, 0.95]]}[nstages])
         doc['status-report'] = {s: {'stage-weight': ws[s]} for s in range(nstages)}
         if rng.random() < 0.5:
             doc['status-report'][0].update({'executable': 'bin/progress.sh', 'arguments': '-x %s:ref' % comps[0]['name'],
